@@ -19,6 +19,7 @@ PROP = {
             "connection's handler call blocked on a channel, a third connection issues 5 requests, each answered within 300 ms while the "
             "others are held for 1 s; then both held connections are released and served."
             " Scenario tlsroles (also run under the race detector): one real tcp+tls server, 2..8 TLS clients whose certificates share a serial number and partly an issuer (roles ops/admin/none/malformed, two refused), sequential, concurrent and in parallel; every handler invocation carries the role of its own connection's leaf."
+            " Scenario holchurn: one connection's handler call stays blocked while, following a generated script, new clients connect, established clients leave (also mid-frame) or are closed by the server on a protocol error, and the remaining connections and the newcomers keep sending (whole frames, frames stalled mid-frame, identical transaction ids): every response must arrive within 1 s while the call is still blocked, then the blocked call is released and answered; per-connection observables compared with grun of the model on the same interleaving."
             " Scenario holwrite: a scripted connection whose response write blocks until the write deadline is served by the real server next to a live TCP client whose requests must all be answered within 300 ms."
             " The lock skeleton of server.go is re-extracted before the Coq build with the operations that can wait for a peer, the handler or another goroutine (Accept, ReadRequest, WriteResponse, Handshake, handler calls, sleeps, channel operations) as AWait actions: a wait under ms.lock fails the discipline check.",
     "assumptions": [
